@@ -19,10 +19,11 @@ type field struct {
 }
 
 type dumpReader struct {
-	b      []byte
-	pos    int
-	fields []field
-	err    error
+	b        []byte
+	pos      int
+	fields   []field
+	err      error
+	badCount int64 // first element count outside 0..len(b) (0 = none)
 }
 
 func (d *dumpReader) add(n int, what, kind string) []byte {
@@ -62,6 +63,7 @@ func (d *dumpReader) count(what string) int {
 	n := d.i64(what, "count")
 	if d.err == nil && (n < 0 || n > int64(len(d.b))) {
 		d.err = fmt.Errorf("bad count %d of %s", n, what)
+		d.badCount = n
 		return 0
 	}
 	return int(n)
@@ -114,6 +116,16 @@ var dumpTags = map[byte]string{
 	byte(rt.FloatType):  "float",
 	byte(rt.StringType): "string",
 	byte(rt.CodeType):   "code",
+}
+
+// firstBadCount reads s the way golua's loader does and returns the first
+// element count it meets that cannot be right (negative or larger than the
+// whole input), 0 if there is none.
+func firstBadCount(s string) int64 {
+	d := &dumpReader{b: []byte(s)}
+	d.add(3, "prefix", "prefix")
+	d.konst("F")
+	return d.badCount
 }
 
 func parseDump(s string) ([]field, error) {
